@@ -28,11 +28,11 @@ NOT_ASSERTED = ['state of a builder after a refused composite store (the propert
 
 
 def BOUNDS(tier):
-    return {'fill_states': 5120, 'bfs_depth': 3 if tier == 'quick' else 6, 'widths': '1..257', 'read_remaining': '0..64,255,1022,1023', 'exhaustive': True}
+    return {'fill_states': 5120, 'bfs_depth': 3 if tier == 'quick' else 6, 'widths': '0..257', 'read_remaining': '0..64,255,1022,1023', 'exhaustive': True}
 
 
 def REQUIRED_COVER(tier):
-    return {'fill:1023/4', 'op:store_slice_consumed', 'op:snake', 'fits-exactly', 'overflow-by-one', 'range:257', 'depth:1023', 'read:route:plain', 'read:route:vm',
+    return {'fill:1023/4', 'op:store_slice_consumed', 'op:snake', 'fits-exactly', 'overflow-by-one', 'range:257', 'range:0', 'depth:1023', 'read:route:plain', 'read:route:vm',
             'read:exact', 'bfs'}
 
 
@@ -348,8 +348,13 @@ def case_range(rec, w, fill):
     if w <= 256:
         checks += [('store_uint', 1 << w, False), ('store_uint', -1, False), ('store_uint', (1 << w) - 1, True), ('store_uint', 0, True),
                    ('store_uint', (1 << w) + 1, False), ('store_uint', 1 << (w + 7), False)]
-    checks += [('store_int', 1 << (w - 1), False), ('store_int', -(1 << (w - 1)) - 1, False), ('store_int', (1 << (w - 1)) - 1, True),
-               ('store_int', -(1 << (w - 1)), True), ('store_int', 1 << w, False)]
+    if w == 0:
+        # a zero-bit field holds the value 0 and nothing else (block.tlb uses `## 0`-like fields through computed widths)
+        checks += [('store_int', 0, True), ('store_int', 1, False), ('store_int', -1, False), ('store_int', 255, False)]
+        rec.covered('range:0')
+    else:
+        checks += [('store_int', 1 << (w - 1), False), ('store_int', -(1 << (w - 1)) - 1, False), ('store_int', (1 << (w - 1)) - 1, True),
+                   ('store_int', -(1 << (w - 1)), True), ('store_int', 1 << w, False)]
     for meth, v, ok in checks:
         bd = mk_builder(fill, 0)
         rec.trans()
@@ -361,6 +366,8 @@ def case_range(rec, w, fill):
             raised = e
         if ok and raised is not None:
             rec.violation(f'range-refused:{meth}', f'{meth}({v}, {w}) is in range but raised {exc_name(raised)}', 'case_range', args)
+        if ok and raised is None and len(bd.bits) - fill != w:
+            rec.violation(f'range-grew-wrong:{meth}', f'{meth}({v}, {w}) wrote {len(bd.bits) - fill} bits', 'case_range', args)
         if not ok and raised is None:
             rec.violation(f'range-accepted:{meth}', f'{meth}({v}, {w}) is out of range but was stored ({len(bd.bits) - fill} bits written)', 'case_range', args)
         rec.outcome('in-range-ok' if ok else 'out-of-range-refused')
@@ -371,7 +378,7 @@ def case_range(rec, w, fill):
 
 
 def shard_ranges(rec):
-    for w in range(1, 258):
+    for w in range(0, 258):
         for fill in (0, 5, 1023 - w if 1023 - w >= 0 else 0):
             case_range(rec, w, fill)
     # var ints: value too long for the length field, negative var_uint / coins
